@@ -933,6 +933,32 @@ func (m *Machine) exec(in ssa.Instruction, state map[string]Vec) {
 		}
 	case *ssa.Store:
 		w := width(x.Val.Type())
+		if at, isArr := x.Val.Type().Underlying().(*types.Array); isArr {
+			// whole-array copy (a composite literal assigned to a local): element by element
+			dk, okd := m.cellKey(x.Addr)
+			if ld, isLoad := x.Val.(*ssa.UnOp); isLoad && ld.Op == token.MUL && okd && at.Len() <= 64 {
+				if sk, oks := m.cellKey(ld.X); oks {
+					ew := width(at.Elem())
+					for i := int64(0); i < at.Len(); i++ {
+						from, to := fmt.Sprintf("%s[%d]", sk, i), fmt.Sprintf("%s[%d]", dk, i)
+						if v, has := state[from]; has {
+							state[to] = v
+						} else if ew > 0 {
+							state[to] = constVec(0, ew)
+						}
+					}
+					return
+				}
+			}
+			if okd {
+				for k := range state {
+					if strings.HasPrefix(k, dk+"[") {
+						state[k] = topVec(len(state[k]))
+					}
+				}
+			}
+			return
+		}
 		if st, isStruct := x.Val.Type().Underlying().(*types.Struct); isStruct {
 			// struct copy into a local cell: a by-value receiver/parameter spills its fields
 			if key, ok := m.cellKey(x.Addr); ok {
